@@ -273,7 +273,7 @@ void nmc_enumerate(const nmc::Tier& t, const nmc::Sink& emit) {
             RS = dedupe(RS);
             for (auto& s : RS) {
                 long d = (long)s.size();
-                for (long lay = 0; lay <= (d > 1 ? 1 : 0); lay++) for (long op : {(long)r12::B_ADD, (long)r12::B_MUL}) for (long kd = 0; kd <= 3; kd++) {
+                for (long lay = 0; lay <= (d > 1 ? 1 : 0); lay++) for (long op : {(long)r12::B_ADD, (long)r12::B_MUL}) for (long kd = 0; kd <= 5; kd++) {   // kd 4 / 5: keepdims False / True together with an INITIAL value (the SIMD kernels start from the identity; found dropped on the pinned tree)
                     put(Case("red", {{op, dt, lay, kd}, s, {}}));
                     for (long a = 0; a < d; a++) { put(Case("red", {{op, dt, lay, kd}, s, {a}})); put(Case("red", {{op, dt, lay, kd}, s, {a - d}})); }
                 }
@@ -404,16 +404,19 @@ template <typename A, typename B> static Run do_outer(int op, const A& a, const 
 }
 #endif
 #ifdef C12_PART_RED
-template <typename A, typename AX, typename KD> static Run do_reduce_k(int op, const A& a, const AX& ax, KD kd, bool full, int front) {
-    if (op == r12::B_ADD) return run3(full, front, [&] { return view::reduce_add(a, ax, nm::None, nm::None, kd); }, [&](auto... c) { return na::add.reduce(a, ax, nm::None, nm::None, kd, c...); });
-    return run3(full, front, [&] { return view::reduce_multiply(a, ax, nm::None, nm::None, kd); }, [&](auto... c) { return na::multiply.reduce(a, ax, nm::None, nm::None, kd, c...); });
+template <typename A, typename AX, typename KD, typename IN> static Run do_reduce_k(int op, const A& a, const AX& ax, KD kd, IN init, bool full, int front) {
+    if (op == r12::B_ADD) return run3(full, front, [&] { return view::reduce_add(a, ax, nm::None, init, kd); }, [&](auto... c) { return na::add.reduce(a, ax, nm::None, init, kd, c...); });
+    return run3(full, front, [&] { return view::reduce_multiply(a, ax, nm::None, init, kd); }, [&](auto... c) { return na::multiply.reduce(a, ax, nm::None, init, kd, c...); });
 }
 template <typename A, typename AX> static Run do_reduce(int op, const A& a, const AX& ax, int kd, bool full, int front) {
+    using E = meta::get_element_type_t<A>;
     switch (kd) {
-    case 0: return do_reduce_k(op, a, ax, nm::False, full, front);
-    case 1: return do_reduce_k(op, a, ax, nm::True, full, front);
-    case 2: return do_reduce_k(op, a, ax, false, full, front);
-    default: return do_reduce_k(op, a, ax, true, full, front);
+    case 0: return do_reduce_k(op, a, ax, nm::False, nm::None, full, front);
+    case 1: return do_reduce_k(op, a, ax, nm::True, nm::None, full, front);
+    case 2: return do_reduce_k(op, a, ax, false, nm::None, full, front);
+    case 3: return do_reduce_k(op, a, ax, true, nm::None, full, front);
+    case 4: return do_reduce_k(op, a, ax, nm::False, (E)3, full, front);
+    default: return do_reduce_k(op, a, ax, nm::True, (E)3, full, front);
     }
 }
 #endif
@@ -484,8 +487,9 @@ template <typename T> static Outcome execute_t(const Case& c) {
     if (o == "red") {
         int op = (int)h[0]; long lay = h[2]; int kd = (int)h[3]; const L& s = c.a[1]; const L& ax = c.a[2];
         TArr<T> d = op == r12::B_MUL ? data_factors<T>(s) : data_odd<T>(s, 37, 11, 0.5, 64);
-        bool keep = kd == 1 || kd == 3;
+        bool keep = kd == 1 || kd == 3 || kd == 5;
         std::optional<TArr<T>> want = ax.empty() ? r12::c12_reduce<T>(op, d, nullptr, keep) : r12::c12_reduce<T>(op, d, &ax[0], keep);
+        if (want && kd >= 4) for (auto& v : want->data) v = op == r12::B_MUL ? (T)((T)3 * v) : (T)((T)3 + v);   // the fold starts from the initial value 3 (exact: small-integer data)
         bool nt;
         if (ax.empty()) nt = d.size() >= ln && d.size() >= 2;
         else { long dd = (long)s.size(), a = ax[0] < 0 ? ax[0] + dd : ax[0]; long inner = 1; for (long i = a + 1; i < dd; i++) inner *= s[(size_t)i]; nt = s[(size_t)a] >= 2 && (a == dd - 1 ? s[(size_t)a] >= ln : inner >= ln); }
